@@ -17,6 +17,7 @@ RULES = {
     "C20.R3": lambda ctx: ramrules.guards(ctx, "C20.R3"),
     "C20.R5": lambda ctx: ramrules.iterator(ctx, "C20.R5"),
     "C20.R6": lambda ctx: ramrules.sibling(ctx, "C20.R6"),
+    "C20.R6b": lambda ctx: ramrules.wrappers(ctx, "C20.R6b"),
     "C20.R7": lambda ctx: ramrules.ram_pf(ctx, "C20.R7"),
 }
 
